@@ -34,7 +34,8 @@ RULE = (
 ASSUMPTIONS = [
     "x64 on (float32 trees, float64 root): statistics / momenta / update compared "
     "at 5e-5 of the leaf's max-abs (+ a computed float32 cancellation bound); "
-    "preconditioners at (n*err + n*1e-6 + 1e-5 + 256*n*p*u*kappa) of max-abs where "
+    "preconditioners at (n*err + n*1e-6 + 1e-5 + 256*n*p*u*kappa + (n/p) 2^-23 |S|_F/(lmin+d), "
+    "the last term for a differently rounded float32 copy of the statistic inside the compiled update) of max-abs where "
     "err is the reported root error and kappa the regularised condition number "
     "(roots with 256*n*p*u*kappa > 1e-3 are counted and skipped); for eigh with a "
     "relative ridge the eigenvalue estimate is not reported, so the preconditioner is "
@@ -323,7 +324,16 @@ def check(case):
             if cond_slack > 1e-3:
               skipped_eigh += 1     # conditioning beyond what float64 can resolve: no meaningful comparison
               continue
-            tol = nsz * float(err) + nsz * 1e-6 + 1e-5 + extra + cond_slack
+            # The statistic is float32 and a compiled update may feed the root routine a differently rounded copy
+            # of it than the one it stores (XLA re-evaluates the fused accumulation; observed: the installed root
+            # lies between the roots of the stored and of the exactly accumulated statistic). An entrywise
+            # perturbation of 1 ulp32 moves (S+dI)^(-1/p) by at most (1/p) |E|_2 (lmin+d)^(-1/p-1), i.e. relative
+            # to the root's max entry (>= (lmin+d)^(-1/p) / n) by:
+            stat_slack = nsz / lay.exponent * 2.0 ** -23 * float(np.linalg.norm(S)) / max(lmin + d, 1e-300)
+            if stat_slack > 0.05:
+              skipped_eigh += 1     # float32 rounding of the statistic alone moves the root by > 5%
+              continue
+            tol = nsz * float(err) + nsz * 1e-6 + 1e-5 + extra + cond_slack + stat_slack
             if bracket_lo is not None:
               Phi = ref.inverse_root(S, lay.exponent, bracket_lo, clamp=True)      # smallest admissible ridge -> largest root
               Pi = nw["pres"][k]
